@@ -170,6 +170,16 @@ func (processor *packetProcessor) Process(ctx context.Context, session *sessions
 			return processor.encoder.Encode(c, pubrec)
 		}
 	case *packet.Subscribe:
+		// at least one filter, one QoS per filter, no empty filter (MQTT-3.8.3-3, MQTT-4.7.3-1): a body of
+		// zeros (e.g. announced but never sent) would otherwise decode into millions of empty filters
+		if len(p.Topic) == 0 || len(p.Qos) != len(p.Topic) {
+			return ErrProtocolViolation
+		}
+		for idx := range p.Topic {
+			if len(p.Topic[idx]) == 0 {
+				return ErrProtocolViolation
+			}
+		}
 		topics := make([][]byte, len(p.Topic))
 		for idx := range p.Topic {
 			topics[idx] = session.PrefixMountPoint(p.Topic[idx])
@@ -202,6 +212,15 @@ func (processor *packetProcessor) Process(ctx context.Context, session *sessions
 			}
 		}
 	case *packet.Unsubscribe:
+		// at least one filter, no empty filter (MQTT-3.10.3-2, MQTT-4.7.3-1)
+		if len(p.Topic) == 0 {
+			return ErrProtocolViolation
+		}
+		for idx := range p.Topic {
+			if len(p.Topic[idx]) == 0 {
+				return ErrProtocolViolation
+			}
+		}
 		topics := make([][]byte, len(p.Topic))
 		for idx := range p.Topic {
 			topics[idx] = session.PrefixMountPoint(p.Topic[idx])
